@@ -224,6 +224,9 @@ func (r *Runner) Step(o Op) Reply {
 		r.checkpoint(true)
 		r.hist["restart/0"]++
 		return Reply{Kind: "st"}
+	case o.Proc == "twin":
+		r.Twin(o.Id)
+		return Reply{Kind: "st"}
 	case o.Proc == "idle":
 		r.Idle()
 		fmt.Fprintf(r.w, "C %d null\nR st 0\n", o.Id)
